@@ -44,9 +44,14 @@ def rng_rules(rep, prog, f, seed_param="random_state", unseeded_live=False):
                       "draw from a generator that is not seeded with %s's %s (seed: %r)%s" % (f.name, seed_param, g.seed, via))
         else:
             ok = e.state == ("seeded", f.qname)
+            if not ok and isinstance(e.state, tuple) and e.state and e.state[0] == "seeded-mixed":
+                rep.unk("R1.global", ewhere(e), "the global stream is seeded on every path, but not in the same way on all of them (%s): not decided%s" % ("; ".join(e.state[1])[:120], via))
+                continue
             rep.check("R1.global", ok, ewhere(e), "global-stream draw after a reseed with %s.%s on every path%s" % (f.name, seed_param, via),
                       "draw from numpy's global stream that is not dominated by np.random.seed(%s) of %s (state: %s)%s" % (seed_param, f.name, e.state, via))
-    if not draws:
+    if not draws and any(e.kind == "seed_global" and isinstance(e.what, RG.SeedV) and e.what.api == f.qname for e in effects):
+        rep.ok("RNG.api", fwhere(f), "%s seeds numpy's global stream with its %s and draws nothing itself: a seeding helper" % (f.name, seed_param))
+    elif not draws:
         rep.unk("RNG.api", fwhere(f), "no random draw reachable from %s although it takes %s" % (f.qname, seed_param))
     for (q, node, rel) in Rg.truthy_seed_tests:
         rep.bad("R2.truthiness", {"file": rel, "line": node.lineno, "function": q, "construct": norm(node)},
